@@ -3,7 +3,7 @@ import struct
 from .. import bb, chain as K, gen_chain as GC
 
 NAMESPACE = "Rbp.Props.C01"
-REQUIRED = ["readTx_encTx", "txid_preimage_is_stripped"]
+REQUIRED = ["readTx_encTx", "txid_preimage_is_stripped", "readBlock_encBlock", "header_bytes", "compactSize_roundtrip"]
 LEAN_FILES = ["Rbp/Model/Wire.lean", "Rbp/Spec/Chain.lean", "Rbp/Proofs/Wire.lean", "Rbp/Model/Block.lean", "Rbp/Model/Run.lean"]
 RULE = ("(a) hook `block`: the real read_block on a Cursor vs the Lean parser, every field dumped (hashes, counts, scripts, per-output type/address, to_bytes length, merkle verdict); "
         "(b) black-box csvdump on generated chains, all 8 coins, --verify on/off, four files compared byte for byte + printed totals. Generators: random chains (legacy+segwit txs, arbitrary witness stacks, "
